@@ -38,6 +38,7 @@ def run(rep):
     rep.alias = {"O6.4": "O5.2", "O6.5": "O5.2"}
     C06.fallback_and_dispatch(rep)
     _comp_fallback(rep)
+    C06.component_aware(rep)
     rep.alias = {}
     repeated(rep)
 
